@@ -51,7 +51,7 @@ CATALOGUE = [
     # collection / adaptivity faults
     "collection_other_binning", "collection_add_other_binning", "set_adaptive_on_static",
 ]
-FAULT_KINDS = ["invalid:" + c for c in CATALOGUE] + ["valid_op_raised", "fault_after_growth"]
+FAULT_KINDS = ["invalid:" + c for c in CATALOGUE] + ["fault_after_growth"]
 RULE = ("one run = one live node of a seeded family (1-D fixed int/float, 1-D adaptive, 1-D gapped, 2-D fixed, 2-D "
         "adaptive, 2-D with a gapped axis, 3-D fixed) and a twin, a seeded history (<= 14) of valid operations (fill, "
         "fill_n, += , *=, /=, merge_bins(inplace), set_dtype, normalize(inplace)) with 1-5 invalid calls from a "
@@ -76,7 +76,7 @@ ASSUMPTIONS = [
 FAMILIES = ["1d_int", "1d_float", "1d_adaptive", "1d_gapped", "2d_fixed", "2d_adaptive", "2d_gapped_axis", "3d_fixed",
             "1d_int32"]
 VALID = ["fill", "fill", "fill_w", "fill_n", "fill_n", "fill_n_w", "iadd_copy", "imul", "idiv", "merge", "set_dtype",
-         "normalize", "fill_far", "isub_half", "iadd_float_copy", "isub_small_int"]
+         "normalize", "fill_far", "isub_half", "iadd_float_copy", "isub_small_int", "fill_heavy"]
 
 
 def generate(rng, seed, part):
@@ -136,6 +136,9 @@ def apply_valid(h, kind, arg):
     """One valid in-place operation; returns NotImplemented when not applicable to this node."""
     nd = h.ndim
     base = [0.25 + (arg % 13) * 0.25 for _ in range(nd)]
+    if kind == "fill_heavy":
+        v = base[0] if nd == 1 else base
+        return h.fill(v, 100000)
     if kind in ("fill", "fill_w", "fill_far"):
         if kind == "fill_far":
             base = [x + 5.0 + arg % 3 for x in base]
